@@ -40,12 +40,12 @@ func genReadOnlyMode(t *rapid.T) (Mode, *bool) {
 	case 0:
 		return Mode{}, nil
 	case 1:
-		return Mode{}, boolp(false)
+		return Mode{}, vhBoolp(false)
 	case 2:
 		// on CI nothing is ever written - whatever UPDATE_SNAPS and the Update option say
 		var opt *bool
 		if rapid.IntRange(0, 2).Draw(t, "cioption") == 0 {
-			opt = boolp(rapid.Bool().Draw(t, "cioptionvalue"))
+			opt = vhBoolp(rapid.Bool().Draw(t, "cioptionvalue"))
 		}
 		return Mode{CI: true, Update: rapid.SampledFrom([]string{"", "true", "clean"}).Draw(t, "ciupd")}, opt
 	case 3:
@@ -53,7 +53,7 @@ func genReadOnlyMode(t *rapid.T) (Mode, *bool) {
 	case 4:
 		return Mode{Update: rapid.SampledFrom([]string{"1", "TRUE", "false", "yes", "True", "t", "true ", "0", "FALSE", "f"}).Draw(t, "other")}, nil
 	default:
-		return Mode{Update: "true"}, boolp(false)
+		return Mode{Update: "true"}, vhBoolp(false)
 	}
 }
 
@@ -74,7 +74,7 @@ func mutateJNode(t *rapid.T, n JNode) JNode {
 			out.Kids = append(append([]JNode{}, n.Kids...), JNode{K: "num", Num: "42"})
 			if n.K == "obj" {
 				key := "added"
-				for i := 0; contains(n.Keys, key); i++ {
+				for i := 0; vhContains(n.Keys, key); i++ {
 					key = fmt.Sprintf("added%d", i)
 				}
 				out.Keys = append(append([]string{}, n.Keys...), key)
@@ -118,7 +118,7 @@ func mutateJNode(t *rapid.T, n JNode) JNode {
 	}
 }
 
-func contains(ss []string, s string) bool {
+func vhContains(ss []string, s string) bool {
 	for _, x := range ss {
 		if x == s {
 			return true
@@ -332,7 +332,7 @@ func checkC02(c c02Case) error {
 	r := c.Stored.invoke(cfg, ft)
 	ft.finish()
 	if out, err := outcomeOf(r); err != nil || out != oAdded {
-		return fmt.Errorf("recording the stored value: outcome %q err %v errors=%q", out, err, clipAll(r.Errors))
+		return fmt.Errorf("recording the stored value: outcome %q err %v errors=%q", out, err, vhClipAll(r.Errors))
 	}
 
 	// process 2: receive a different value, updating not enabled
@@ -355,7 +355,7 @@ func checkC02(c c02Case) error {
 	}
 	if out != oFailed {
 		return fmt.Errorf("received value differs from the stored one but the call ended as %q (errors=%q logs=%q); stored %q received %q",
-			out, clipAll(r.Errors), clipAll(r.Logs), clip(string(c.A)), clip(string(c.B)))
+			out, vhClipAll(r.Errors), vhClipAll(r.Logs), vhClip(string(c.A)), vhClip(string(c.B)))
 	}
 	if d := diffDirs(before, after, false); d != "" {
 		return fmt.Errorf("failing call modified the snapshot directory: %s", d)
@@ -394,7 +394,7 @@ func classifyC02(c c02Case) ([]string, bool) {
 			cls = append(cls, "whitespace_only")
 			nt = true
 		}
-		if (!validUTF8(a) || !validUTF8(b)) && strings.ToValidUTF8(a, "�") == strings.ToValidUTF8(b, "�") {
+		if (!vhValidUTF8(a) || !vhValidUTF8(b)) && strings.ToValidUTF8(a, "�") == strings.ToValidUTF8(b, "�") {
 			cls = append(cls, "invalid_utf8_only")
 			nt = true
 		}
@@ -478,7 +478,7 @@ func checkC02Many(c c02ManyCase) error {
 	ft := newFakeT("TestManyMismatches")
 	for i := 0; i < c.N; i++ {
 		if r := c.call(i, false).invoke(spec.build(root), ft); len(r.Errors) != 0 {
-			return fmt.Errorf("recording call %d: %q", i+1, clipAll(r.Errors))
+			return fmt.Errorf("recording call %d: %q", i+1, vhClipAll(r.Errors))
 		}
 	}
 	ft.finish()
@@ -492,7 +492,7 @@ func checkC02Many(c c02ManyCase) error {
 		for i := 0; i < c.N; i++ {
 			r := c.call(i, true).invoke(cfg, ft)
 			if out, err := outcomeOf(r); err != nil || out != oFailed {
-				return fmt.Errorf("execution %d: call %d of %d differs from its snapshot but ended as %q (%v): errors=%q logs=%q", e, i+1, c.N, out, err, clipAll(r.Errors), clipAll(r.Logs))
+				return fmt.Errorf("execution %d: call %d of %d differs from its snapshot but ended as %q (%v): errors=%q logs=%q", e, i+1, c.N, out, err, vhClipAll(r.Errors), vhClipAll(r.Logs))
 			}
 		}
 		ft.finish()
@@ -510,8 +510,8 @@ func TestC02_ManyMismatches(t *testing.T) {
 			cases = append(cases, c02ManyCase{N: n, API: api, Execs: 1 + (i+j)%2, Color: (i+j)%3 == 0})
 		}
 	}
-	nshards, _ := strconv.Atoi(getenv("VERIF_NSHARDS", "1"))
-	shard, _ := strconv.Atoi(getenv("VERIF_SHARD", "0"))
+	nshards, _ := strconv.Atoi(vhGetenv("VERIF_NSHARDS", "1"))
+	shard, _ := strconv.Atoi(vhGetenv("VERIF_SHARD", "0"))
 	p := prop[c02ManyCase]{property: "C02", check: checkC02Many, classify: func(c c02ManyCase) ([]string, bool) {
 		return []string{"api_" + c.API, fmt.Sprintf("mismatching_calls_in_one_test_%d", c.N)}, true
 	}}
